@@ -56,9 +56,9 @@ func genC09(t *rapid.T) *Case {
 	}
 	g := newG(t, p)
 	c := &Case{Property: "C09", HTML: g.page()}
-	// the first Hangul/CJK character only after several KB of other text (inline style sheet in the head)
+	// the first Hangul/CJK character only after 2 to 37 KB of other text (inline style sheet in the head)
 	if mode == 0 && rapid.IntRange(0, 3).Draw(t, "latescript") == 0 {
-		css := strings.Repeat(".module-header .nav-item > a:hover { color: #336699; margin: 0 auto; padding: 4px 8px }\n", rapid.IntRange(20, 120).Draw(t, "cssrules"))
+		css := strings.Repeat(".module-header .nav-item > a:hover { color: #336699; margin: 0 auto; padding: 4px 8px }\n", rapid.SampledFrom([]int{20, 60, 120, 200, 400}).Draw(t, "cssrules"))
 		c.HTML = strings.Replace(c.HTML, "</head>", "<style>"+css+"</style></head>", 1)
 	}
 	c.Opts = genOpts(t, 50)
